@@ -428,6 +428,22 @@ def check_const(case, ctx, G):
         v = getattr(G, name)()
         if tuple(v) != want[name]:
             raise Fail("%s() is not %s" % (name, want[name]), {"got": repr(tuple(v))}, facts)
+    # the vectors handed out are the caller's to modify (documented coordinate setting); the next caller must
+    # still get what the name says
+    for name, w in want.items():
+        v = getattr(G.Vector, name)()
+        v[2] = 7
+        v[0] = -3
+        l = G.Line(getattr(G.Vector, name)(), G.Vector(1, 2, 2))
+        l.move(G.Vector(1, 1, 1))
+        again = getattr(G.Vector, name)()
+        if tuple(again) != w:
+            # (same signature as the plain check above: once a shared instance is corrupted the plain check fails too)
+            raise Fail("Vector.%s() is not %s" % (name, w), {"got": repr(tuple(again)), "when": "after an earlier result was modified in place"}, facts)
+    o = G.origin()
+    o.move(G.Vector(1, 2, 3))
+    if tuple(G.origin()) != (0, 0, 0):
+        raise Fail("origin() is not (0,0,0)", {"got": repr(tuple(G.origin())), "when": "after an earlier result was moved"}, facts)
 
 
 # ---------------------------------------------------------------- strategies
@@ -436,7 +452,12 @@ def q_for(tn):
     if tn == "int":
         return st.integers(-9, 9).map(F)
     if tn == "float":
-        return st.builds(F, st.integers(-64, 64), st.sampled_from([1, 2, 4, 8]))
+        # dyadic values and floats whose repr is not their exact binary value (0.1, 1/3, 1e-6, ...); the exact
+        # rational of the float is what the case carries
+        return st.one_of(
+            st.builds(F, st.integers(-64, 64), st.sampled_from([1, 2, 4, 8])),
+            st.sampled_from([F(0.1), F(-0.3), F(1 / 3.0), F(1e-6), F(123456.789), F(2.675), F(-0.7)]),
+        )
     if tn == "dec":
         return st.builds(F, st.integers(-99, 99), st.sampled_from([1, 2, 4, 5, 10]))
     return st.builds(F, st.integers(-12, 12), st.sampled_from([1, 2, 3, 4, 7]))
